@@ -87,7 +87,7 @@ type c12Scenario struct {
 	Ops     []c12Op    `json:"ops"`
 }
 
-var c12Kinds = []string{"member", "between", "clauses", "det", "alt-tail", "error", "throw", "undefined", "findall", "repeat", "nat", "catch-all", "catch-err", "call", "once", "cut-only", "true-only", "cut-or"}
+var c12Kinds = []string{"member", "between", "clauses", "det", "alt-tail", "error", "throw", "undefined", "findall", "repeat", "nat", "catch-all", "catch-err", "call", "once", "cut-only", "true-only", "cut-or", "repeat-plain"}
 
 func c12Shapes() []c12Query {
 	// the 12 shapes used by the enumeration phase
@@ -154,7 +154,7 @@ func c12Gen(g *kit.Lane, tier string) c12Scenario {
 // ---- query scripts: what a query does, item by item ----
 
 type c12Item struct {
-	kind byte   // 't' tick, 'a' answer, 'e' end, 'x' error
+	kind byte   // 't' tick, 'a' answer, 'e' end, 'x' error, 'h' runs for ever without an answer (only with a context that fires)
 	s    string // tick label / answer text / canonical error
 }
 
@@ -283,6 +283,19 @@ func c12Build(q c12Query, id string) (text string, at func(i int) c12Item) {
 			}
 			return A("")
 		}
+	case "repeat-plain":
+		// nothing between repeat/0 and the hand-off to the consumer (or only a unification): answers without end, and a
+		// loop in which no predicate of the host is ever called
+		text = "repeat"
+		ans := ""
+		if k >= 3 {
+			text, ans = "repeat, X = 1", "X=1"
+		}
+		if k == 4 && q.FireAt > 0 {
+			// never an answer, never an end: the pending Next returns only because its context is cancelled at poll FireAt
+			return "repeat, X = a, X = b", func(int) c12Item { return c12Item{'h', ""} }
+		}
+		return text, func(int) c12Item { return A(ans) }
 	case "nat":
 		text = fmt.Sprintf("between(1, 100000000, X), tick(%s, a(X))", id)
 		return text, func(i int) c12Item {
